@@ -113,6 +113,42 @@ impl Script {
     }
 }
 
+/// A sequence of iterator calls richer than a Script: step i = (code >> 3i) & 7 with
+/// 0 next, 1 next_back, 2 nth(1), 3 nth_back(1), 4 nth(2), 5 nth_back(2), 6 nth(usize::MAX), 7 nth_back(usize::MAX).
+#[derive(Clone, Copy, PartialEq, Eq, Hash, Debug)]
+pub struct Steps {
+    pub code: u64,
+    pub len: u8,
+}
+impl Steps {
+    pub fn step(&self, i: usize) -> u8 {
+        ((self.code >> (3 * i)) & 7) as u8
+    }
+    /// every sequence of 1..=max_len steps over the 8 step kinds
+    pub fn all_up_to(max_len: usize) -> Vec<Steps> {
+        let mut v = vec![];
+        for l in 1..=max_len {
+            for code in 0..(1u64 << (3 * l)) {
+                v.push(Steps { code, len: l as u8 });
+            }
+        }
+        v
+    }
+    /// (is_back, skip count or None for usize::MAX)
+    pub fn decode(k: u8) -> (bool, Option<usize>) {
+        match k {
+            0 => (false, Some(0)),
+            1 => (true, Some(0)),
+            2 => (false, Some(1)),
+            3 => (true, Some(1)),
+            4 => (false, Some(2)),
+            5 => (true, Some(2)),
+            6 => (false, None),
+            _ => (true, None),
+        }
+    }
+}
+
 #[derive(Clone, Copy, PartialEq, Eq, Hash, Debug)]
 pub enum Acc {
     GetMut = 0,
@@ -220,6 +256,14 @@ pub enum Act {
     DrainDebug(Rs, Script),
     /// `format!("{:?}", it)` after running a script on iter (0) / iter_mut (1) / into_iter (2)
     IterDebug(usize, Script),
+    /// next / next_back / nth / nth_back steps on: 0 iter, 1 iter_mut, 2 range(rs), 3 range_mut(rs),
+    /// 4 into_iter (terminal), 5 drain(rs) followed by dropping the drain
+    StepsOn(usize, Rs, Steps),
+    /// `buf.extend(other)` where `other` is a whole buffer of m elements moved in (its owning iterator)
+    ExtendFromBuf(usize, usize),
+    /// into_iter of the buffer advanced by `a` nexts; `clone_from` an owning iterator over m other
+    /// elements advanced by `b` nexts; then drain it (terminal)
+    IntoIterCloneFrom(usize, usize, usize),
 }
 
 fn acc_from(i: usize) -> Option<Acc> {
@@ -293,6 +337,9 @@ impl Act {
             CmpOther(_) => "cmp_other",
             DrainDebug(..) => "drain_debug",
             IterDebug(..) => "iter_debug",
+            StepsOn(..) => "steps",
+            ExtendFromBuf(..) => "extend_from_buffer",
+            IntoIterCloneFrom(..) => "into_iter_clone_from",
         }
     }
     pub fn args(&self) -> Vec<usize> {
@@ -304,6 +351,9 @@ impl Act {
             Swap(i, j) | CloneFrom(i, j) | ExtendHint(i, j) => vec![i, j],
             WriteVia(_, i) => vec![i],
             IterDebug(k, s) => vec![k, s.bits as usize, s.len as usize],
+            StepsOn(k, r, st) => vec![k, r.sk as usize, r.a, r.ek as usize, r.b, st.code as usize, st.len as usize],
+            ExtendFromBuf(m, rot) => vec![m, rot],
+            IntoIterCloneFrom(a, m, b) => vec![a, m, b],
             Drain(r, s, _) | Range(r, s) | RangeMut(r, s) | DrainDebug(r, s) => vec![
                 r.sk as usize,
                 r.a,
@@ -419,6 +469,21 @@ impl Act {
                 let (r, s) = rs()?;
                 DrainDebug(r, s)
             }
+            "steps" => StepsOn(
+                a(0)?,
+                Rs {
+                    sk: a(1)? as u8,
+                    a: a(2)?,
+                    ek: a(3)? as u8,
+                    b: a(4)?,
+                },
+                Steps {
+                    code: a(5)? as u64,
+                    len: a(6)? as u8,
+                },
+            ),
+            "extend_from_buffer" => ExtendFromBuf(a(0)?, a(1)?),
+            "into_iter_clone_from" => IntoIterCloneFrom(a(0)?, a(1)?, a(2)?),
             "iter_debug" => IterDebug(
                 a(0)?,
                 Script {
@@ -455,6 +520,7 @@ impl Act {
                 | Clear
                 | Extend(_)
                 | ExtendHint(..)
+                | ExtendFromBuf(..)
                 | ExtendFromSlice(_)
                 | Fill
                 | FillWith
